@@ -171,7 +171,7 @@ def run(ctx):
         r = random.Random(case["seed"])
         fname = case["fmt"]
         fmt = FORMATS[fname]
-        n = r.randint(1, 6)
+        n = case.get("n") or r.randint(1, 6)
         fc = make_file(fname, r, n, r.choice(["tiny", "normal"]), {"noncanon": False, "eol": "\n", "final_newline": True, "score_mode": "int", "tags": False})
         bt = tables.get_buffer_type(fmt.buffer)
         L = fmt.lines_per_entry or 1
@@ -190,7 +190,9 @@ def run(ctx):
             except Exception:
                 pass
         for cls in ("marker", "plus", "nonnumeric", "nonnumeric-info", "alphabet", "extra-column", "missing-column"):
-            for pos in range(n):
+            for pos in (range(n) if n <= 10 else [n - 5, n // 2]):
+                if n > 10 and cls not in ("nonnumeric", "alphabet"):
+                    continue
                 inj = inject(fc, fmt, r, cls, pos)
                 if inj is None:
                     continue
@@ -199,7 +201,9 @@ def run(ctx):
                 path = tables.write_case_file(ctx, fc, data=data)
                 gz = tables.write_case_file(ctx, fc, gz=True, data=data)
                 size = len(body)
-                if ctx.quick:
+                if n > 10:
+                    ks = sorted(set([max(1, size // 7), max(1, size // 3), size // 2 + 1, size + 2, 200, 333]))
+                elif ctx.quick:
                     ks = sorted(set([1, 2, max(1, size // 3), size // 2 + 1, size, size + 2] + [r.randint(1, size + 2) for _ in range(6)]))
                 else:
                     ks = list(range(1, size + 3))
@@ -252,6 +256,9 @@ def run(ctx):
     fmts = ["fasta2", "fastq", "bed3", "bed6", "bdg", "narrowpeak", "sam", "vcf", "fastaw"]
     for i in range(ctx.share(ctx.pick(30 * len(fmts), 60 * len(fmts)))):
         ctx.run_case(one, {"fmt": fmts[i % len(fmts)], "seed": rng.randrange(2 ** 40)})
+    # files of more than a hundred records (column data longer than any message excerpt), the violation late in the file
+    for i in range(ctx.share(ctx.pick(32, 200))):
+        ctx.run_case(one, {"fmt": ["bed6", "narrowpeak", "bdg", "bed3"][i % 4], "seed": rng.randrange(2 ** 40), "n": rng.randint(110, 140)})
     ctx.sample({"format": "fastq", "class": "plus", "record": 1, "data": "@a\nAC\n+\n!!\n@b\nG\nx\n#\n", "expected": "every configuration raises; FormatException.line_number in 4..7 and equal everywhere"})
     ctx.floor("format_exceptions", ctx.pick(300, 5000))
     ctx.floor("judged:must-raise:nonnumeric", ctx.pick(100, 2000))
